@@ -113,6 +113,7 @@ fn inj_name(i: &Inject) -> String {
         Inject::Consts { from, .. } => format!("consts(from={})", if *from == usize::MAX { "usize::MAX".to_string() } else { from.to_string() }),
         Inject::ConstsNonEmpty { from, .. } => format!("consts-nonempty(from={})", if *from == usize::MAX { "usize::MAX".to_string() } else { from.to_string() }),
         Inject::Validate { .. } => "validate".into(),
+        Inject::ValidateAlt { .. } => "validate-alt".into(),
         Inject::MpcMsgBurst { count, from, party, .. } => if from == party { format!("{count} mpc_msgs naming the receiver itself as sender") } else { format!("{count} mpc_msgs from unknown sender {from}") },
         Inject::MpcMsg { from, .. } => format!("mpc_msg(from={})", if *from == usize::MAX { "usize::MAX".to_string() } else { from.to_string() }),
         Inject::Cancel { .. } => "cancel".into(),
@@ -212,6 +213,14 @@ pub fn cases_c15(tier: &str, seed: u64) -> Vec<Case> {
             for gate_msgs in [true, false] {
                 let mut base = base_scenario(prog, leader, &mask, &inputs, Strategy::Script(vec![]), 0x15000 + pi as u128);
                 base.gate_msgs = gate_msgs;
+                // cancel while / right after the party's own result is being delivered
+                for party in (0..n).filter(|p| mask[*p]) {
+                    for (wname, when) in [("during-output", When::DuringOutput), ("after-output", When::AfterOutput)] {
+                        let mut sc = base.clone();
+                        sc.injections = vec![(when, Inject::Cancel { comp: 0, party })];
+                        v.push(Case { prop: "C15", key: format!("{} L{} gated={} cancel {} p{}", prog.name, leader, gate_msgs, wname, party), sc, progs: vec![(*prog).clone()], inputs: vec![inputs.clone()], out_masks: vec![mask.clone()], leaders: vec![leader], mismatch: None, mt: None });
+                    }
+                }
                 let steps = pilot_steps(&base);
                 let stride = if thorough { 1 } else if n == 2 { 1 } else { 2 };
                 for k in (0..=steps + 1).filter(|k| k % stride == 0 || *k < 8) {
@@ -435,6 +444,31 @@ pub fn cases_c16(tier: &str, seed: u64) -> Vec<Case> {
                     }
                 }
             }
+            // compatible policies; a validate request for the same computation but another program (or
+            // naming another leader) reaches a follower at every point of the run: never answered Ok
+            for f in (0..n).filter(|f| *f != leader) {
+                let inputs: Vec<u64> = (0..n as u64).map(|p| (seed + 3 * p) % 256).collect();
+                let mask = vec![true; n];
+                let base = base_scenario(prog, leader, &mask, &inputs, Strategy::Script(vec![]), 0x16300 + pi as u128);
+                let steps = pilot_steps(&base).min(if thorough { 60 } else { 24 });
+                for k in 0..=steps {
+                    for (ai, what) in ["program", "leader"].into_iter().enumerate() {
+                        if !thorough && (k + ai + f) % 2 == 1 && k > 8 {
+                            continue;
+                        }
+                        let mut sc = base.clone();
+                        let mut other = sc.policies[0][leader].clone();
+                        if what == "program" {
+                            other.program = other.program.replace('^', "&").replace("a > b", "b > a");
+                        } else {
+                            other.leader = (0..n).find(|l| *l != leader).unwrap_or(0);
+                        }
+                        sc.alt_policies = vec![other];
+                        sc.injections = vec![(if k % 2 == 0 { When::Step(k) } else { When::After(k) }, Inject::ValidateAlt { comp: 0, party: f, alt: 0 })];
+                        v.push(Case { prop: "C16", key: format!("{} L{} foreign-validate({what}) at p{} point{}", prog.name, leader, f, k), sc, progs: vec![(*prog).clone()], inputs: vec![inputs.clone()], out_masks: vec![mask.clone()], leaders: vec![leader], mismatch: Some((f, "foreign-validate")), mt: None });
+                    }
+                }
+            }
             // ill-typed program at one party
             for bad in 0..n {
                 let inputs: Vec<u64> = (0..n as u64).map(|p| (seed + 5 * p) % 256).collect();
@@ -464,6 +498,14 @@ fn judge_c16(c: &Case, rec: &RunRecord) -> Vec<(String, Value)> {
         if !(refused && ordered) {
             return out;
         }
+    }
+    if kind == "foreign-validate" {
+        for inj in rec.injected.iter().filter(|i| i.what == "validate-alt") {
+            if inj.result.as_deref() == Some("Ok") {
+                out.push(("a validate request for another program / leader than the party's own policy was answered Ok".to_string(), json!({"party": inj.party, "step": inj.step, "case": c.key})));
+            }
+        }
+        return out;
     }
     let must_fail: Vec<usize> = if kind == "ill-typed" { vec![f] } else { vec![f, leader] };
     for p in must_fail {
